@@ -34,11 +34,11 @@ def fr(x):
 # ------------------------------------------------------------------------------------------------ state
 class Actor:
     __slots__ = ("id", "name", "inc", "host", "pc", "st", "wait", "susp", "daemon", "onexit", "log", "kill", "arestart",
-                 "pending", "ops", "held", "tmpl")
+                 "pending", "ops", "held", "tmpl", "grace")
 
     def key(self):
         return (self.id, self.host, self.pc, self.st, self.wait, self.susp, self.daemon, self.onexit, self.log, self.kill,
-                self.arestart, self.pending)
+                self.arestart, self.pending, self.grace)
 
     def clone(self):
         a = Actor.__new__(Actor)
@@ -136,25 +136,22 @@ class Ref:
     def log(self, s, a, ev, val):
         a.log = a.log + ((ev, val, s.now),)
 
-    def spawn(self, s, name, restart_count=0):
+    def spawn(self, s, name, restart_count=0, update_slot=True):
         t = self.tmpl[name]
         n = sum(1 for i in s.order if s.actors[i].name == name)
         a = Actor()
         a.id, a.name, a.inc, a.host = "%s#%d" % (name, n), name, n, t["host"]
-        a.pc, a.st, a.wait, a.susp, a.daemon = 0, "ready", None, False, False
-        a.onexit, a.log, a.kill, a.arestart, a.pending, a.held = (), (), None, False, None, ()
-        a.ops, a.tmpl = t.get("ops", []), name
+        a.pc, a.st, a.wait, a.susp, a.daemon = -1, "ready", None, False, False
+        a.onexit, a.log, a.kill, a.arestart, a.held, a.grace = (), (), None, False, (), None
+        a.pending = ("start", str(restart_count))     # logged (and the template attributes applied) when it first runs
+        # what sim.cpp's run_actor does before the ops, as unlogged ops of their own (each is a simcall)
+        hidden = ([["_daemonize"]] if t.get("daemon", False) else []) + ([["_auto_restart"]] if t.get("auto_restart", False) else [])
+        hidden += [["_on_exit", k] for k in range(1, t.get("on_exit", 0) + 1)]
+        a.ops, a.tmpl = hidden + list(t.get("ops", [])), name
         s.actors[a.id] = a
         s.order = s.order + (a.id,)
-        s.slots = tuple((k, v) for (k, v) in s.slots if k != name) + ((name, a.id),)
-        self.log(s, a, "start", str(restart_count))
-        # what sim.cpp's run_actor does before the ops, in the same order
-        if t.get("daemon", False):
-            a.daemon = True
-        if t.get("auto_restart", False):
-            self.set_auto_restart(s, a, restart_count)
-        for k in range(1, t.get("on_exit", 0) + 1):
-            a.onexit = a.onexit + (k,)
+        if update_slot:
+            s.slots = tuple((k, v) for (k, v) in s.slots if k != name) + ((name, a.id),)
         kt = t.get("kill_time", -1)
         if kt is not None and kt >= 0 and fr(kt) > s.now:
             a.kill = fr(kt)
@@ -347,16 +344,25 @@ class Ref:
             self.log(s, a, rec[0], rec[1])
             a.pc += 1
             return [s]
+        a.grace = None
         if a.pc >= len(a.ops):
             self.log(s, a, "end", "-")
             self.die(s, a, False)
             return [s]
         op = a.ops[a.pc]
         n = op[0]
+        if n.startswith("_"):
+            if n == "_daemonize":
+                a.daemon = True
+            elif n == "_auto_restart":
+                self.set_auto_restart(s, a, int(a.log[0][1]))
+            elif n == "_on_exit":
+                a.onexit = a.onexit + (op[1],)
+            a.pc += 1
+            return [s]
 
         def done(val="ok"):
-            self.log(s, a, n, val)
-            a.pc += 1
+            a.pending = (n, val)      # the effect is done; the record is written when the actor next runs
             return [s]
 
         def block(w):
@@ -473,8 +479,7 @@ class Ref:
                     s2 = s.clone()
                     a2 = s2.A(aid)
                     self.take_from_set(s2, op[1], v)
-                    self.log(s2, a2, n, v)
-                    a2.pc += 1
+                    a2.pending = (n, v)
                     out.append(s2)
                 return out
             dl = s.now + fr(op[2]) if n == "wait_any_for" and fr(op[2]) >= 0 else None
@@ -518,8 +523,7 @@ class Ref:
                 if t == s.now:                         # "dies exactly at that date" vs "date not in the future": open
                     s2 = s.clone()
                     a2 = s2.A(aid)
-                    self.log(s2, a2, n, "ok")
-                    a2.pc += 1
+                    a2.pending = (n, "ok")
                     out.append(s2)
                 if s.actors[tid].kill is not None and s.actors[tid].kill != t:
                     # second set_kill_time: the statement does not say which date wins: the new one, or the earliest
@@ -527,8 +531,7 @@ class Ref:
                     a3 = s3.A(aid)
                     b3 = a3 if tid == a3.id else s3.A(tid)
                     b3.kill = min(b3.kill, t)
-                    self.log(s3, a3, n, "ok")
-                    a3.pc += 1
+                    a3.pending = (n, "ok")
                     out.append(s3)
                 b = a if tid == a.id else s.A(tid)
                 b.kill = t
@@ -544,6 +547,8 @@ class Ref:
                 b = s.A(tid)
                 if b.st != "dead" and not b.susp:
                     b.susp = True
+                    if b.st == "ready" and b.pending is None and 0 <= b.pc < len(b.ops):
+                        b.grace = s.now      # the simcall it issued in the same scheduling round is still performed
                     for oid in list(s.objs):
                         if b.id in s.objs[oid].owners and s.objs[oid].kind in ("exec", "io"):
                             self.pause(s, oid, b.id, True)
@@ -595,8 +600,8 @@ class Ref:
             if not s.hosts_on.get(h, True):
                 s.hosts_on[h] = True
                 for (bh, tn, rc) in s.boot:
-                    if bh == h:
-                        self.spawn(s, tn, rc)
+                    if bh == h:      # the interpreter's name -> actor table still points to the old incarnation
+                        self.spawn(s, tn, rc, update_slot=False)
             return done()
         raise RefError("op " + n)
 
@@ -681,7 +686,8 @@ class Ref:
     def successors(self, s):
         """all transitions enabled at s.now; [] if time must advance"""
         out = []
-        ready = [i for i in s.order if s.actors[i].st == "ready" and not s.actors[i].susp]
+        ready = [i for i in s.order if s.actors[i].st == "ready" and
+                 (not s.actors[i].susp or (s.actors[i].grace == s.now and s.actors[i].pending is None))]
         for i in ready:
             out.extend(self.step(s.clone(), i))
         due = [e for e in self.due(s) if e[0] == s.now]
@@ -706,7 +712,8 @@ class Ref:
 
     def observation(self, s):
         names = sorted({s.actors[i].name for i in s.order})
-        return tuple((n, tuple(s.actors[i].log for i in s.order if s.actors[i].name == n)) for n in names)
+        obs = tuple((n, tuple(s.actors[i].log for i in s.order if s.actors[i].name == n and s.actors[i].log)) for n in names)
+        return tuple((n, incs) for (n, incs) in obs if incs)      # an actor killed before it ever ran leaves no log
 
     def run(self):
         s0 = State()
